@@ -267,7 +267,10 @@ def job_symcoef(job):
             if len(cases) > cfg.get('max_cases', 5000):
                 cases = rng.sample(cases, cfg.get('max_cases', 5000))
         for _ in range(cfg.get('random', 0)):
-            cases.append((rand_keys(rng, alg), rand_keys(rng, alg)))
+            if cfg.get('modes'):          # restrict the pattern kinds (large algebras: sparse operands only)
+                cases.append((rand_keys(rng, alg, rng.choice(cfg['modes'])), rand_keys(rng, alg, rng.choice(cfg['modes']))))
+            else:
+                cases.append((rand_keys(rng, alg), rand_keys(rng, alg)))
         for ak, bk in cases:
             for name in ops:
                 if cfg.get('graded') and False:
